@@ -181,6 +181,27 @@ pub fn render_cnf(num_vars: usize, clauses: &[Vec<i32>], layout: u32) -> String 
     if bit(3) {
         s.push_str(&format!("c comment after the header{nl}"));
     }
+    if bit(13) {
+        // a block of comment lines which ends around byte 8192, the size of the chunks in which the file is read:
+        // one of the lines (or the first clause lines) straddles the boundary
+        let target = 8192 - 60 + ((layout >> 14) % 200) as usize;
+        let mut k = layout as u64 | 1;
+        while s.len() < target {
+            k = k.wrapping_mul(6364136223846793005).wrapping_add(1442695040888963407);
+            let len = 10 + (k >> 40) as usize % 120;
+            s.push_str("c ");
+            // the filler looks like clause data: digits, blanks and minus signs
+            for j in 0..len.min(target + 40 - s.len().min(target + 40)) {
+                s.push(match (k >> (j % 48)) & 3 {
+                    0 => ' ',
+                    1 => '1',
+                    2 => '2',
+                    _ => '-',
+                });
+            }
+            s.push_str(nl);
+        }
+    }
     let sep = if bit(4) { "  " } else if bit(5) { "\t" } else { " " };
     let mut at_line_start = true;
     for (i, c) in clauses.iter().enumerate() {
